@@ -764,6 +764,13 @@ def _family(classes, name):
     return fam
 
 
+# locals that, by the naming used throughout the package, hold betfairlightweight / betdaq resource objects
+# (plain data records built by the client library): their attributes are plain reads
+EXTERNAL_ROOTS = {"current_order", "market_book", "market_catalogue", "runner", "instruction_report", "cleared_order",
+                  "cleared_orders", "current_orders", "response", "simulated_response", "cancel_instruction_report",
+                  "place_instruction_report", "market_definition", "avail"}
+
+
 def _plain_chain(root_cls, attrs, stored, computed, classes):
     """every hop of the chain reads a plain attribute that nothing assigns outside a constructor"""
     from .resolve import NAMING_ATTRS
@@ -782,6 +789,15 @@ def _plain_chain(root_cls, attrs, stored, computed, classes):
             return False
         cls = NAMING_ATTRS.get(a)
     return True
+
+
+def _external_field_stored(trees, root, attr):
+    for tree in trees.values():
+        for n in ast.walk(tree):
+            if isinstance(n, ast.Attribute) and isinstance(n.ctx, (ast.Store, ast.Del)) and n.attr == attr \
+                    and isinstance(n.value, ast.Name) and n.value.id == root:
+                return True
+    return False
 
 
 def propagate_new_aliases(trees):
@@ -814,6 +830,10 @@ def propagate_new_aliases(trees):
                     return False
                 root, attrs = ch
                 root_cls = parts[0] if (root == "self" and len(parts) == 2) else NAMING_VARS.get(root)
+                if root in EXTERNAL_ROOTS and root_cls is None and len(attrs) == 1:
+                    # a field of a client-library record: plain, unless the package assigns that field through this name
+                    if not any(rc is None and True for rc, owner in ()) and not _external_field_stored(trees, root, attrs[0]):
+                        return name_ok(root)
                 if not _plain_chain(root_cls, attrs, stored_attrs, computed_attrs, classes):
                     return False
                 return name_ok(root)
